@@ -61,6 +61,14 @@ FreeOpsNeverFail(op, res) == (op \in {"stats", "statsmap"}) => res = "ok"
 DictOpsSucceed(op, res) == (op \in DictOps) => res = "ok"
 FirstCloseOk(op, pb, res) == (op = "close" /\ pb = 0) => res = "ok"
 
+\* "A search whose context is cancelled returns an error ... and leaves the index usable":
+\*  - a search started with an already cancelled / expired context returns the context's error
+\*    (collector/topn.go tests ctx.Done() before the first Next), unless the index is closed;
+\*  - the plain search that a goroutine issues right after a cancelled one succeeds
+\*    (or reports the closed index once a Close has begun).
+PreCancelledFails(pre, res) == pre => res \in {"cancelled", "closed"}
+UsableAfterCancel(afterCancel, pe, res) == afterCancel => (res = "ok" \/ (pe >= 1 /\ res = "closed"))
+
 ResAllowed(op, pb, pe, res, ctx) ==
     /\ NoPanicNoHang(res)
     /\ AfterCloseClosed(op, pb, res)
